@@ -350,6 +350,16 @@ def finish(prop, tier, t0, cov, violations, known, broken):
         broken += rbroken
         for pred, detail, path in rviol:
             violations.append(({"op": "readrace", "pre": "", "field": pred, "want": "", "got": str(detail)[:300], "cfg": None}, path))
+    if prop in ("C19", "C20") and not broken:
+        # directed scenarios judged by SweepHist.tla: C19 - never-deadlines across save / load with a clock that moves between any two readings;
+        # C20 - a Compute over an expired entry whose deadline a reader extends right after the computation is a miss
+        import c13check
+        rn, rviol, rbroken = c13check.read_race_half(prop, tier)
+        cov["directed_scenarios"] = rn
+        cov["traces_validated_against_impl"] += rn
+        broken += rbroken
+        for pred, detail, path in rviol:
+            violations.append(({"op": "readrace", "pre": "", "field": pred, "want": "", "got": str(detail)[:300], "cfg": None}, path))
     if prop == "C08" and not broken:
         # the policies evict a stale node of the key while a load is in flight (directed scenario, SweepHist.tla)
         import c13check
